@@ -84,7 +84,7 @@ def run_property(pid, tier, seed, relock=False, verbose=False):
             print('DEGRADED function=%s reason=no contract' % q)
             degraded.append((q, 'no contract'))
         for ci, c in enumerate(db.contracts.get(q, [])):
-            for case in db.cases_of(c, 'thorough' if relock else tier):
+            for case in (db.cases_of(c, 'thorough') + [qc for qc in db.cases_of(c, 'quick') if qc not in db.cases_of(c, 'thorough')]) if relock else db.cases_of(c, tier):
                 flt = (P.get('case_filter') or {}).get(q)
                 if flt and any(case.get(k2) != v2 for k2, v2 in flt.items()):
                     continue
@@ -339,6 +339,74 @@ def run_property(pid, tier, seed, relock=False, verbose=False):
     return 0
 
 
+def relock_all(seed=0, only=None):
+    """rebuild obligations.lock.json in ONE pass: every (function, contract, case) of the thorough tier is verified once and its
+    discharged obligations are entered for every property that uses it (properties with a `kinds` filter take only those kinds)."""
+    from vk.engine import Program
+    from vk.contracts import ContractDB
+    from vk import props, isolate
+    prog = Program({m: os.path.join(REPO, f) for m, f in props.FILES.items()})
+    db = ContractDB().load_dir(os.path.join(HERE, 'contracts'))
+    users, tasks = {}, {}
+    for pid, P in sorted(props.PROPS.items()):
+        if only and pid not in only:
+            continue
+        for q in P['functions']:
+            for ci, c in enumerate(db.contracts.get(q, [])):
+                for case in db.cases_of(c, 'thorough') + [qc for qc in db.cases_of(c, 'quick') if qc not in db.cases_of(c, 'thorough')]:
+                    flt = (P.get('case_filter') or {}).get(q)
+                    if flt and any(case.get(k2) != v2 for k2, v2 in flt.items()):
+                        continue
+                    key = (q, ci, json.dumps(case, sort_keys=True, default=str))
+                    users.setdefault(key, []).append(pid)
+                    tasks[key] = (q, ci, {'timeout': 40, 'retry': 240, 'seed': seed % 1000, 'procs': 8, 'case': case, 'kinds': None, 'want_hash': True})
+    keys = sorted(tasks, key=lambda k: (0 if 'LGANM.sample' in k[0] or 'ANM.sample' in k[0] else 1, k))      # long ones first
+    lock = load_json(LOCK, {})
+    if only:
+        lk = {k: v for k, v in lock.items() if not any(k.startswith(pid + ':') for pid in only)}
+    else:
+        lk = {}
+    heads = set()
+    stats = {}
+    t0 = time.time()
+    outs = isolate.run([tasks[k] for k in keys], lambda: (prog, db), jobs=5)
+    for key, out in zip(keys, outs):
+        q = key[0]
+        if out.get('error'):
+            print('ERROR %s %s\n%s' % (q, key[2], out['error']))
+            continue
+        if out['degraded']:
+            print('DEGRADED %s %s: %s' % (q, key[2], out['degraded']))
+        for d in out['obligations']:
+            heads.add(d['id'].split('/')[0])
+    if only:       # stale plain ids of the re-verified function@case heads are dropped
+        lk = {k: v for k, v in lk.items() if ':' in k.split('/')[0] or k.split('/')[0] not in heads}
+    for key, out in zip(keys, outs):
+        if out.get('error'):
+            continue
+        for pid in users[key]:
+            kinds = props.PROPS[pid].get('kinds')
+            st = stats.setdefault(pid, [0, 0])
+            for d in out['obligations']:
+                if d['expect'] != 'unsat':
+                    if d['verdict'] == 'unsat':
+                        print('  DEAD PATH / VACUOUS GUARD %s (%s)' % (d['id'], d['meta']['text']))
+                    continue
+                if kinds and not any(d['meta']['kind'].startswith(k) for k in kinds):
+                    continue
+                if d['verdict'] == 'unsat':
+                    lk[(pid + ':' + d['id']) if kinds else d['id']] = d.get('h') or 'P'
+                    st[0] += 1
+                else:
+                    st[1] += 1
+                    print('  NOT DISCHARGED [%s] %s %s %s' % (pid, d['id'], d['verdict'], d['meta']['text'][:100]))
+    json.dump(lk, open(LOCK, 'w'), indent=0, sort_keys=True)
+    for pid in sorted(stats):
+        print('relocked %s: %d discharged obligations (%d not discharged)' % (pid, stats[pid][0], stats[pid][1]))
+    print('relock-all: %d tasks, %d lock entries, %.0f s' % (len(keys), len(lk), time.time() - t0))
+    return 0
+
+
 def try_candidates(q, cands):
     with tempfile.NamedTemporaryFile('w', suffix='.json', delete=False) as f:
         json.dump(cands, f, default=str)
@@ -393,6 +461,11 @@ def main():
     try:
         if a.replay:
             return do_replay(a.replay)
+        if a.property.startswith('ALL'):       # ./check ALL --relock   |   ./check ALL:C01,C04 --relock
+            if not a.relock:
+                print('ALL is only valid with --relock')
+                return 3
+            return relock_all(seed, only=a.property.split(':', 1)[1].split(',') if ':' in a.property else None)
         return run_property(a.property, a.tier if a.tier in ('quick', 'thorough') else 'quick', seed, relock=a.relock)
     except SystemExit:
         raise
